@@ -15,79 +15,127 @@ Proof. apply marshal_into_ok. Qed.
 Lemma firstn_skipn_nil {A : Type} (k : nat) (l : list A) : skipn k l = [] -> firstn k l = l.
 Proof. intros H. rewrite <- (firstn_skipn k l) at 2. rewrite H, app_nil_r. reflexivity. Qed.
 
-Section ServiceWrite.
+(* a model.Iterator that never fails, in the three-place form of the laws *)
+Definition nofail {St R : Type} (Rep : St -> list R -> Prop) : St -> list R -> bool -> Prop :=
+  fun s l fl => fl = false /\ Rep s l.
+
+(* ---------- the accepted prefix of a batch ---------- *)
+Lemma fit_prefix_length mr evs : (length (fit_prefix mr evs) <= length evs)%nat.
+Proof. induction evs as [|e tl IH]; cbn [fit_prefix length]; [lia|]. destruct (too_big mr e); cbn [length]; lia. Qed.
+
+Lemma fit_prefix_fits mr evs : Forall (fun e => too_big mr e = false) (fit_prefix mr evs).
+Proof.
+  induction evs as [|e tl IH]; cbn [fit_prefix]; [constructor|].
+  destruct (too_big mr e) eqn:E; constructor; assumption.
+Qed.
+
+Lemma fit_prefix_all mr evs : has_big mr evs = false -> fit_prefix mr evs = evs.
+Proof.
+  unfold has_big. induction evs as [|e tl IH]; cbn [fit_prefix existsb]; [reflexivity|].
+  intros H. apply orb_false_iff in H as [H1 H2]. rewrite H1, IH by exact H2. reflexivity.
+Qed.
+
+Lemma fit_prefix_incl mr evs e : In e (fit_prefix mr evs) -> In e evs.
+Proof.
+  induction evs as [|x tl IH]; cbn [fit_prefix]; [intros []|].
+  destruct (too_big mr x); [intros []|]. intros [->|H]; [left; reflexivity|right; apply IH; exact H].
+Qed.
+
+(* ---------- the iwrapper lifts the laws of the wrapped iterator to records ---------- *)
+Section IWrapperLaws.
 Variable T : Type.
-Variable lit_get : T -> T * outcome levent.
+Variable lit_get : T -> T * outcome (option levent).
 Variable lit_next : T -> T.
-Variable RepL : T -> list levent -> Prop.
+Variable RepL : T -> list levent -> bool -> Prop.
 Hypothesis lawsL : iter_laws lit_get lit_next RepL.
+Variable mr : Z.
 
-Definition rep_iw (s : T) (recs : list bytes) : Prop := exists evs, RepL s evs /\ recs = map iw_rec evs.
+(* pending records: those of the events before the first oversize one; the record iterator fails at the end when
+   there is such an event or when the wrapped iterator fails *)
+Definition rep_iw (s : T) (recs : list bytes) (fl : bool) : Prop :=
+  exists evs flL, RepL s evs flL /\ recs = map iw_rec (fit_prefix mr evs) /\ fl = (has_big mr evs || flL).
 
-Lemma iw_laws : iter_laws (iw_get T lit_get) (iw_next T lit_next) rep_iw.
+Lemma iw_laws : iter_laws (iw_get T lit_get mr) (iw_next T lit_next) rep_iw.
 Proof.
   destruct lawsL as [Leof Lget]. split.
-  - intros s (evs & HR & E). destruct evs; [|discriminate].
-    destruct (Leof s HR) as (s' & Hg & HR'). exists s'. unfold iw_get. rewrite Hg. split; [reflexivity|].
-    exists []. split; [exact HR'|reflexivity].
-  - intros s r l (evs & HR & E). destruct evs as [|e evs]; [discriminate|]. cbn [map] in E. injection E as -> ->.
-    destruct (Lget s e evs HR) as (s' & Hg & HR' & HRn). exists s'. unfold iw_get, iw_next. rewrite Hg.
+  - intros s fl (evs & flL & HR & E & ->). destruct evs as [|e tl].
+    + destruct (Leof s flL HR) as (s' & Hg & HR'). exists s'. unfold iw_get. rewrite Hg. cbn [has_big existsb orb].
+      split; [destruct flL; reflexivity|]. exists [], flL. repeat split. exact HR'.
+    + cbn [fit_prefix] in E. destruct (too_big mr e) eqn:Eb; [|discriminate].
+      destruct (Lget s e tl flL HR) as (s' & Hg & HR' & _). exists s'. unfold iw_get. rewrite Hg, Eb.
+      unfold has_big. cbn [existsb]. rewrite Eb. cbn [orb end_res].
+      split; [reflexivity|]. exists (e :: tl), flL. cbn [fit_prefix]. rewrite Eb. unfold has_big. cbn [existsb]. rewrite Eb.
+      repeat split. exact HR'.
+  - intros s r l fl (evs & flL & HR & E & ->). destruct evs as [|e tl]; [discriminate|].
+    cbn [fit_prefix] in E. destruct (too_big mr e) eqn:Eb; [discriminate|]. cbn [map] in E. injection E as -> ->.
+    destruct (Lget s e tl flL HR) as (s' & Hg & HR' & HRn). exists s'. unfold iw_get, iw_next. rewrite Hg, Eb.
+    assert (Hb : has_big mr (e :: tl) = has_big mr tl) by (unfold has_big; cbn [existsb]; rewrite Eb; reflexivity).
     split; [reflexivity|]. split.
-    + exists (e :: evs). split; [exact HR'|reflexivity].
-    + exists evs. split; [exact HRn|reflexivity].
+    + exists (e :: tl), flL. cbn [fit_prefix]. rewrite Eb. repeat split. exact HR'.
+    + exists tl, flL. rewrite Hb. repeat split. exact HRn.
 Qed.
+End IWrapperLaws.
 
-(* Service.Write's loop drains the iterator into the journal: the flattened journal grows by exactly the
-   pending records, in order, each once; the write is not failed *)
-Lemma sw_loop_spec : forall rounds fuel cfg j s we evs, 0 < max_chunk cfg -> RepL s evs ->
-  (length evs < rounds)%nat -> (length evs < fuel)%nat ->
-  exists j' s' we', sw_loop T lit_get lit_next rounds fuel cfg j s we = Ok (j', s', we', false) /\
-    flat j' = flat j ++ map iw_rec evs /\ RepL s' [].
+(* ---------- Service.Write's loop over any record iterator obeying the protocol ---------- *)
+Section ServiceLoop.
+Variable St : Type.
+Variable g : St -> St * outcome (option bytes).
+Variable nx : St -> St.
+Variable Rep : St -> list bytes -> bool -> Prop.
+Hypothesis laws : iter_laws g nx Rep.
+
+(* the loop drains the iterator into the journal: the flattened journal grows by exactly the pending records, in
+   order, each once; the write fails exactly when the iterator ends with an error *)
+Lemma sw_loop_spec : forall rounds fuel cfg j s we l fl, 0 < max_chunk cfg -> Rep s l fl ->
+  (length l < rounds)%nat -> (length l < fuel)%nat ->
+  exists j' s' we', sw_loop St g nx rounds fuel cfg j s we = Ok (j', s', we', fl) /\
+    flat j' = flat j ++ l /\ Rep s' [] fl.
 Proof.
-  induction rounds as [|rd IH]; intros fuel cfg j s we evs Hmax HR Hr Hf; [lia|].
+  induction rounds as [|rd IH]; intros fuel cfg j s we l fl Hmax HR Hr Hf; [lia|].
   cbn [sw_loop].
-  assert (HRi : rep_iw s (map iw_rec evs)) by (exists evs; split; [exact HR|reflexivity]).
-  destruct (journal_write_spec T _ _ rep_iw iw_laws fuel cfg j s (map iw_rec evs) Hmax HRi ltac:(rewrite map_length; exact Hf))
-    as (k & j1 & s1 & pos & Hjw & Hfl & (evs1 & HR1 & E1) & Hk & Hk1).
+  destruct (journal_write_spec St g nx Rep laws fuel cfg j s l fl Hmax HR Hf)
+    as (k & j1 & s1 & pos & e & Hjw & Hfl & HR1 & Hk & Hne & Hnil).
   rewrite Hjw. cbn [obind].
-  rewrite skipn_map in E1.
-  destruct (skipn k evs) as [|e rest] eqn:Esk.
-  - (* everything written *)
-    assert (evs1 = []) by (destruct evs1; [reflexivity|discriminate]). subst evs1.
-    destruct (proj1 lawsL s1 HR1) as (s2 & Hg & HR2).
-    unfold iw_get at 1. rewrite Hg.
-    eexists j1, s2, _. split; [reflexivity|]. split; [|exact HR2].
-    rewrite Hfl. f_equal. rewrite firstn_map. f_equal. apply firstn_skipn_nil. exact Esk.
-  - (* more pending: the next round continues with the rest *)
-    destruct evs1 as [|e1 rest1]; [discriminate|]. cbn [map] in E1.
-    destruct (proj2 lawsL s1 e1 rest1 HR1) as (s2 & Hg & HR2 & _).
-    unfold iw_get at 1. rewrite Hg.
-    assert (Hlen : length (skipn k evs) = (length evs - k)%nat) by apply skipn_length.
-    assert (Hne : map iw_rec evs <> []) by (destruct evs; [cbn in Esk; rewrite skipn_nil in Esk; discriminate|discriminate]).
-    specialize (Hk1 Hne). rewrite Esk in Hlen. cbn [length] in Hlen.
-    assert (Hsame : map iw_rec (e1 :: rest1) = map iw_rec (e :: rest)) by (cbn [map]; symmetry; exact E1).
-    match goal with |- context [sw_loop _ _ _ rd fuel cfg j1 s2 ?w] =>
-      destruct (IH fuel cfg j1 s2 w (e1 :: rest1) Hmax HR2) as (j' & s' & we' & Hrun & Hfl' & HR') end.
-    + assert (length (e1 :: rest1) = length (e :: rest)) by (rewrite <- (map_length iw_rec), Hsame, map_length; reflexivity).
-      cbn [length] in *. lia.
-    + assert (length (e1 :: rest1) = length (e :: rest)) by (rewrite <- (map_length iw_rec), Hsame, map_length; reflexivity).
-      cbn [length] in *. lia.
-    + exists j', s', we'. split; [exact Hrun|]. split; [|exact HR'].
-      rewrite Hfl', Hfl, Hsame, <- Esk, <- app_assoc, firstn_map, <- map_app, firstn_skipn. reflexivity.
+  destruct l as [|r l'].
+  - (* nothing pending: the call reports how the iterator ended *)
+    rewrite (Hnil eq_refl). cbn [length] in Hk. assert (k = O) by lia. subst k.
+    cbn [firstn skipn] in *. rewrite app_nil_r in Hfl.
+    destruct fl; cbn [end_err].
+    + eexists j1, s1, _. split; [reflexivity|]. rewrite app_nil_r. split; [exact Hfl|exact HR1].
+    + destruct (proj1 laws s1 false HR1) as (s2 & Hg & HR2). rewrite Hg. cbn [end_res].
+      eexists j1, s2, _. split; [reflexivity|]. rewrite app_nil_r. split; [exact Hfl|exact HR2].
+  - destruct (Hne ltac:(discriminate)) as [Hk1 ->].
+    destruct (skipn k (r :: l')) as [|r2 l2] eqn:Esk.
+    + (* everything written: the between-rounds Get tells how the iterator ends *)
+      destruct (proj1 laws s1 fl HR1) as (s2 & Hg & HR2). rewrite Hg.
+      assert (Hall : firstn k (r :: l') = r :: l') by (apply firstn_skipn_nil; exact Esk).
+      destruct fl; cbn [end_res]; eexists j1, s2, _; (split; [reflexivity|]); (split; [rewrite Hfl, Hall; reflexivity|exact HR2]).
+    + (* more pending: the next round continues with the rest *)
+      destruct (proj2 laws s1 r2 l2 fl HR1) as (s2 & Hg & HR2 & _). rewrite Hg.
+      assert (Hlen : length (skipn k (r :: l')) = (length (r :: l') - k)%nat) by apply skipn_length.
+      rewrite Esk in Hlen.
+      match goal with |- context [sw_loop _ _ _ rd fuel cfg j1 s2 ?w] =>
+        destruct (IH fuel cfg j1 s2 w (r2 :: l2) fl Hmax HR2 ltac:(lia) ltac:(lia)) as (j' & s' & we' & Hrun & Hfl' & HR') end.
+      exists j', s', we'. split; [exact Hrun|]. split; [|exact HR'].
+      rewrite Hfl', Hfl, <- Esk, <- app_assoc, firstn_skipn. reflexivity.
 Qed.
 
-End ServiceWrite.
+End ServiceLoop.
 
 (* ---------- the two concrete iterators obey the protocol ---------- *)
-Lemma ls_laws : iter_laws ls_get ls_next (fun (l evs : list levent) => l = evs).
+Lemma ls_laws : iter_laws ls_get ls_next (nofail (fun (l evs : list levent) => l = evs)).
 Proof.
   split.
-  - intros s ->. exists []. split; reflexivity.
-  - intros s r l ->. exists (r :: l). repeat split; reflexivity.
+  - intros s fl (-> & ->). exists []. repeat split.
+  - intros s r l fl (-> & ->). exists (r :: l). repeat split.
 Qed.
 
-Lemma wp_laws fparse : iter_laws (wp_get fparse) wp_next (wp_rep fparse).
-Proof. split; [apply wp_law_eof|apply wp_law_get]. Qed.
+Lemma wp_laws fparse : iter_laws (wp_get fparse) wp_next (nofail (wp_rep fparse)).
+Proof.
+  split.
+  - intros s fl (-> & HR). destruct (wp_law_eof fparse s HR) as (s' & Hg & HR'). exists s'. repeat split; assumption.
+  - intros s r l fl (-> & HR). destruct (wp_law_get fparse s r l HR) as (s' & Hg & HR' & HRn). exists s'. repeat split; assumption.
+Qed.
 
 (* ---------- partitions ---------- *)
 Lemma srv_get_set_same s k j : srv_get (srv_set s k j) k = j.
@@ -124,14 +172,20 @@ Variable as_kv : bytes -> bytes.
 Hypothesis fparse_total : total fparse.
 Hypothesis norm_total : total norm.
 
-Lemma svc_write_ok (T : Type) g nx (RepL : T -> list levent -> Prop) (laws : iter_laws g nx RepL) :
-  forall fuel cfg srv tags it key evs, 0 < max_chunk cfg -> norm tags = Ok key -> RepL it evs -> (length evs < fuel)%nat ->
-  exists j' we, svc_write norm T g nx fuel cfg srv tags it = Ok (srv_set srv key j', {| r_ack := true; r_we := we |}) /\
-    flat j' = content srv key ++ map iw_rec evs.
+Lemma svc_write_spec (T : Type) g nx (RepL : T -> list levent -> bool -> Prop) (laws : iter_laws g nx RepL) :
+  forall fuel cfg srv tags it key evs flL, 0 < max_chunk cfg -> norm tags = Ok key -> RepL it evs flL -> (length evs < fuel)%nat ->
+  exists j' we, svc_write norm T g nx fuel cfg srv tags it =
+                Ok (srv_set srv key j', {| r_ack := negb (has_big (w_limit cfg) evs || flL); r_we := we |}) /\
+    flat j' = content srv key ++ map iw_rec (fit_prefix (w_limit cfg) evs).
 Proof.
-  intros fuel cfg srv tags it key evs Hmax Hn HR Hf. unfold svc_write. rewrite Hn.
-  destruct (sw_loop_spec T g nx RepL laws fuel fuel cfg (srv_get srv key) it None evs Hmax HR Hf Hf) as (j' & s' & we' & Hrun & Hfl & _).
-  rewrite Hrun. cbn [obind negb]. exists j', we'. split; [reflexivity|exact Hfl].
+  clear as_kv. intros fuel cfg srv tags it key evs flL Hmax Hn HR Hf. unfold svc_write. rewrite Hn.
+  assert (HRi : rep_iw T RepL (w_limit cfg) it (map iw_rec (fit_prefix (w_limit cfg) evs)) (has_big (w_limit cfg) evs || flL))
+    by (exists evs, flL; repeat split; exact HR).
+  assert (Hl : (length (map iw_rec (fit_prefix (w_limit cfg) evs)) < fuel)%nat)
+    by (rewrite map_length; pose proof (fit_prefix_length (w_limit cfg) evs); lia).
+  destruct (sw_loop_spec T _ _ _ (iw_laws T g nx RepL laws (w_limit cfg)) fuel fuel cfg (srv_get srv key) it None _ _ Hmax HRi Hl Hl)
+    as (j' & s' & we' & Hrun & Hfl & _).
+  rewrite Hrun. cbn [obind]. exists j', we'. split; [reflexivity|exact Hfl].
 Qed.
 
 Lemma svc_write_rejected (T : Type) g nx fuel cfg srv tags (it : T) : norm tags = Err ->
@@ -156,39 +210,41 @@ Lemma spec_levent_eq wf e : spec_levent fparse wf e = wp_levent fparse wf e.
 Proof. reflexivity. Qed.
 
 (* one request: acknowledged exactly when the specification says so; the partition named by its tags grows by
-   exactly its events, every other partition is untouched *)
+   exactly the events the specification names (the whole batch, or its prefix before the first oversize event
+   when it is rejected for that), every other partition is untouched *)
 Lemma do_req_spec fuel cfg srv r : 0 < max_chunk cfg -> req_ok r -> (req_len r < fuel)%nat ->
-  exists srv' res, do_req fparse norm fuel cfg srv r = Ok (srv', res) /\ r_ack res = spec_ack fparse norm r /\
-    forall key, content srv' key = content srv key ++ map iw_rec (spec_req fparse norm key r).
+  exists srv' res, do_req fparse norm fuel cfg srv r = Ok (srv', res) /\ r_ack res = spec_ack fparse norm cfg r /\
+    forall key, content srv' key = content srv key ++ map iw_rec (spec_req fparse norm cfg key r).
 Proof.
   intros Hmax Hok Hf. destruct r as [op|tags evs|body]; cbn [req_ok req_len] in *; [| |contradiction].
   - (* RPC *)
     destruct Hok as (Ht & Hfl & Hc & Hevs).
-    cbn [do_req]. unfold rpc_write, ingest. rewrite wp_init_encode by assumption.
-    cbn [spec_ack spec_req].
+    cbn [do_req]. unfold rpc_write, ingest, ingest_v. rewrite wp_init_encode by assumption.
+    unfold spec_ack, spec_req. cbn [spec_batch].
     destruct (fparse_total (w_flds op)) as [E|(wf & E)]; rewrite E; cbn [obind].
     + exists srv, {| r_ack := false; r_we := None |}. repeat split. intros key. cbn [map]. rewrite app_nil_r. reflexivity.
     + set (it := {| wp_buf := _ |}).
-      assert (HR : wp_rep fparse it (map (wp_levent fparse wf) (w_evs op))).
-      { exists (w_evs op). cbn. repeat split; try assumption; try lia. }
+      assert (HR : nofail (wp_rep fparse) it (map (wp_levent fparse wf) (w_evs op)) false).
+      { split; [reflexivity|]. exists (w_evs op). cbn. repeat split; try assumption; try lia. }
       destruct (norm_total (w_tags op)) as [En|(k & En)]; rewrite En.
       * rewrite svc_write_rejected by exact En.
         exists srv, {| r_ack := false; r_we := None |}. repeat split. intros key. cbn [map]. rewrite app_nil_r. reflexivity.
-      * destruct (svc_write_ok wpit _ _ _ (wp_laws fparse) fuel cfg srv (w_tags op) it k _ Hmax En HR ltac:(rewrite map_length; exact Hf))
+      * destruct (svc_write_spec wpit _ _ _ (wp_laws fparse) fuel cfg srv (w_tags op) it k _ false Hmax En HR ltac:(rewrite map_length; exact Hf))
           as (j' & we & Hrun & Hfl').
-        rewrite Hrun. eexists _, _. split; [reflexivity|]. split; [reflexivity|].
+        change (wp_get_v fparse false) with (wp_get fparse).
+        rewrite Hrun. eexists _, _. split; [reflexivity|]. split; [cbn [r_ack]; rewrite orb_false_r; reflexivity|].
         intros key. unfold content at 1.
         destruct (bytes_eqb k key) eqn:Ek.
         -- apply bytes_eqb_eq in Ek. subst key. rewrite srv_get_set_same. exact Hfl'.
         -- rewrite srv_get_set_other by (intros ->; rewrite bytes_eqb_refl in Ek; discriminate).
            cbn [map]. rewrite app_nil_r. reflexivity.
   - (* direct *)
-    cbn [do_req]. unfold direct_write. cbn [spec_ack spec_req].
+    cbn [do_req]. unfold direct_write. unfold spec_ack, spec_req. cbn [spec_batch].
     destruct (norm_total tags) as [En|(k & En)]; rewrite En.
     + rewrite svc_write_rejected by exact En.
       exists srv, {| r_ack := false; r_we := None |}. repeat split. intros key. cbn [map]. rewrite app_nil_r. reflexivity.
-    + destruct (svc_write_ok (list levent) _ _ _ ls_laws fuel cfg srv tags evs k evs Hmax En eq_refl Hf) as (j' & we & Hrun & Hfl').
-      rewrite Hrun. eexists _, _. split; [reflexivity|]. split; [reflexivity|].
+    + destruct (svc_write_spec (list levent) _ _ _ ls_laws fuel cfg srv tags evs k evs false Hmax En (conj eq_refl eq_refl) Hf) as (j' & we & Hrun & Hfl').
+      rewrite Hrun. eexists _, _. split; [reflexivity|]. split; [cbn [r_ack]; rewrite orb_false_r; reflexivity|].
       intros key. unfold content at 1.
       destruct (bytes_eqb k key) eqn:Ek.
       * apply bytes_eqb_eq in Ek. subst key. rewrite srv_get_set_same. exact Hfl'.
@@ -196,11 +252,11 @@ Proof.
         cbn [map]. rewrite app_nil_r. reflexivity.
 Qed.
 
-(* the invariant over a history: flattened journal of every partition = concatenation of the acknowledged batches *)
+(* the invariant over a history: flattened journal of every partition = concatenation of the stored batches *)
 Lemma run_spec : forall rs fuel cfg srv, 0 < max_chunk cfg -> Forall req_ok rs -> Forall (fun r => (req_len r < fuel)%nat) rs ->
   exists srv' res, run fparse norm fuel cfg srv rs = Ok (srv', res) /\
-    map r_ack res = map (spec_ack fparse norm) rs /\
-    forall key, content srv' key = content srv key ++ map iw_rec (concat (map (spec_req fparse norm key) rs)).
+    map r_ack res = map (spec_ack fparse norm cfg) rs /\
+    forall key, content srv' key = content srv key ++ map iw_rec (concat (map (spec_req fparse norm cfg key) rs)).
 Proof.
   induction rs as [|r rs IH]; intros fuel cfg srv Hmax Hok Hf.
   - exists srv, []. cbn. repeat split. intros key. rewrite app_nil_r. reflexivity.
@@ -213,6 +269,20 @@ Proof.
     + intros key. rewrite Hcs, Hc. cbn [map concat]. rewrite map_app, app_assoc. reflexivity.
 Qed.
 
+(* every event the specification stores passed the size check of the write path *)
+Lemma spec_req_fits cfg key r : Forall (fun e => too_big (w_limit cfg) e = false) (spec_req fparse norm cfg key r).
+Proof.
+  unfold spec_req. destruct (spec_batch fparse norm r) as [[k evs]|]; [|constructor].
+  destruct (bytes_eqb k key); [apply fit_prefix_fits|constructor].
+Qed.
+
+Lemma spec_content_fits cfg key rs :
+  Forall (fun e => too_big (w_limit cfg) e = false) (concat (map (spec_req fparse norm cfg key) rs)).
+Proof.
+  induction rs as [|r rs IH]; cbn [map concat]; [constructor|].
+  apply Forall_app. split; [apply spec_req_fits|exact IH].
+Qed.
+
 (* reading a partition whose records are the encodings of events, all within MaxRecordSize *)
 Lemma read_back_spec cfg srv key es : content srv key = map iw_rec es -> Forall le_ok es ->
   Forall (fun e => Z.of_nat (length (marshal_le e)) <= max_rec cfg) es ->
@@ -223,35 +293,217 @@ Proof.
   { apply map_ext_in. intros e He. apply iw_rec_ok. rewrite Forall_forall in Hok. apply Hok. exact He. }
   rewrite Hrecs.
   rewrite read_records_ok by (rewrite Forall_map; exact Hsz). cbn [obind].
-  rewrite lei_read_ok by (try reflexivity; exact Hok). cbn [obind]. reflexivity.
+  rewrite lei_read_ok by exact Hok. cbn [obind]. reflexivity.
 Qed.
 
 End WithEnv.
 
-(* ---------- C01_readback: refinement to "a partition is the list of its acknowledged events" ---------- *)
-Theorem readback fparse norm as_kv : total fparse -> total norm ->
-  forall cfg rs fuel key, 0 < max_chunk cfg -> Forall req_ok rs -> Forall (fun r => (req_len r < fuel)%nat) rs ->
-  Forall le_ok (concat (map (spec_req fparse norm key) rs)) ->
-  Forall (fun e => Z.of_nat (length (marshal_le e)) <= max_rec cfg) (concat (map (spec_req fparse norm key) rs)) ->
-  exists srv res, run fparse norm fuel cfg [] rs = Ok (srv, res) /\
-    map r_ack res = map (spec_ack fparse norm) rs /\
-    read_back as_kv cfg srv key = Ok (spec_content fparse norm as_kv key rs).
+(* a record that passed the write path's check fits the readers' buffer when the write limit is positive and
+   not above MaxRecordSize *)
+Lemma fits_readable cfg e : 0 < w_limit cfg <= max_rec cfg -> le_ok e -> too_big (w_limit cfg) e = false ->
+  Z.of_nat (length (marshal_le e)) <= max_rec cfg.
 Proof.
-  intros Hf Hn cfg rs fuel key Hmax Hok Hfuel Hle Hsz.
+  intros [H1 H2] Hok Hb. rewrite <- (writable_size_ok e Hok). unfold too_big in Hb.
+  apply andb_false_iff in Hb as [Hb|Hb]; [apply Z.ltb_ge in Hb; lia|apply Z.ltb_ge in Hb; lia].
+Qed.
+
+(* ---------- C01_readback: refinement to "a partition is the list of its stored batches" ---------- *)
+Theorem readback fparse norm as_kv : total fparse -> total norm ->
+  forall cfg rs fuel key, 0 < max_chunk cfg -> 0 < w_limit cfg <= max_rec cfg ->
+  Forall req_ok rs -> Forall (fun r => (req_len r < fuel)%nat) rs ->
+  Forall le_ok (concat (map (spec_req fparse norm cfg key) rs)) ->
+  exists srv res, run fparse norm fuel cfg [] rs = Ok (srv, res) /\
+    map r_ack res = map (spec_ack fparse norm cfg) rs /\
+    read_back as_kv cfg srv key = Ok (spec_content fparse norm as_kv cfg key rs).
+Proof.
+  intros Hf Hn cfg rs fuel key Hmax Hlim Hok Hfuel Hle.
   destruct (run_spec fparse norm Hf Hn rs fuel cfg [] Hmax Hok Hfuel) as (srv & res & Hrun & Hack & Hc).
   exists srv, res. split; [exact Hrun|]. split; [exact Hack|].
-  unfold spec_content. apply read_back_spec; [|exact Hle|exact Hsz].
-  rewrite Hc. reflexivity.
+  unfold spec_content. apply read_back_spec; [|exact Hle|].
+  - rewrite Hc. reflexivity.
+  - pose proof (spec_content_fits fparse norm cfg key rs) as Hfit.
+    rewrite Forall_forall in *. intros e He. apply fits_readable; [exact Hlim|apply Hle; exact He|apply Hfit; exact He].
 Qed.
 
 (* the history itself never fails and acknowledges exactly the requests the specification accepts, whatever the
-   record sizes are (this is the half of the property that the oversize witness violates on the read side) *)
+   limits are *)
 Theorem run_total fparse norm : total fparse -> total norm ->
   forall cfg rs fuel, 0 < max_chunk cfg -> Forall req_ok rs -> Forall (fun r => (req_len r < fuel)%nat) rs ->
-  exists srv res, run fparse norm fuel cfg [] rs = Ok (srv, res) /\ map r_ack res = map (spec_ack fparse norm) rs /\
-    forall key, content srv key = map iw_rec (concat (map (spec_req fparse norm key) rs)).
+  exists srv res, run fparse norm fuel cfg [] rs = Ok (srv, res) /\ map r_ack res = map (spec_ack fparse norm cfg) rs /\
+    forall key, content srv key = map iw_rec (concat (map (spec_req fparse norm cfg key) rs)).
 Proof.
   intros Hf Hn cfg rs fuel Hmax Hok Hfuel.
   destruct (run_spec fparse norm Hf Hn rs fuel cfg [] Hmax Hok Hfuel) as (srv & res & Hrun & Hack & Hc).
   exists srv, res. split; [exact Hrun|]. split; [exact Hack|]. intros key. rewrite Hc. reflexivity.
+Qed.
+
+(* ---------- raw packets: an acknowledged packet stores as many events as it declares ---------- *)
+(* Partial correctness of Service.Write's loop over ANY record iterator (no protocol assumed: the iterator may
+   panic, fail, misbehave): if [P s n] ("n records of this write are in the journal") is kept by Get/Next the way
+   the loop uses them, then a run that returns without failing ends in a state where Get reported io.EOF *)
+Section Counting.
+Variable St : Type.
+Variable g : St -> St * outcome (option bytes).
+Variable nx : St -> St.
+Variable P : St -> nat -> Prop.
+Variable Fin : St -> nat -> Prop.
+Hypothesis Hsome : forall s n s' r, P s n -> g s = (s', Ok (Some r)) -> P s' n /\ P (nx s') (S n).
+Hypothesis Hnone : forall s n s', P s n -> g s = (s', Ok None) -> P s' n /\ Fin s' n.
+Hypothesis Herr : forall s n s', P s n -> g s = (s', Err) -> P s' n.
+
+Lemma cw_loop_count : forall fuel cfg c s n0 base c' s' n1 e, P s base ->
+  cw_loop St g nx fuel cfg c s n0 = Ok (c', s', n1, e) ->
+  exists k, n1 = (n0 + k)%nat /\ length (c_recs c') = (length (c_recs c) + k)%nat /\ P s' (base + k).
+Proof.
+  induction fuel as [|f IH]; intros cfg c s n0 base c' s' n1 e HP H; cbn [cw_loop] in H; [discriminate|].
+  destruct (max_chunk cfg <=? c_size c).
+  - injection H as <- <- <- <-. exists O. rewrite !Nat.add_0_r. auto.
+  - destruct (g s) as [s1 [ [r| ] | | | ] ] eqn:G; try discriminate.
+    + destruct (Hsome s base s1 r HP G) as [_ HP1].
+      destruct (IH cfg _ _ _ (S base) c' s' n1 e HP1 H) as (k & -> & Hl & HP').
+      exists (S k). cbn [c_recs] in Hl. rewrite app_length in Hl. cbn [length] in Hl.
+      split; [lia|]. split; [lia|]. replace (base + S k)%nat with (S base + k)%nat by lia. exact HP'.
+    + injection H as <- <- <- <-. exists O. rewrite !Nat.add_0_r. split; [reflexivity|]. split; [reflexivity|].
+      exact (proj1 (Hnone s base s1 HP G)).
+    + injection H as <- <- <- <-. exists O. rewrite !Nat.add_0_r. split; [reflexivity|]. split; [reflexivity|].
+      exact (Herr s base s1 HP G).
+Qed.
+
+Lemma chunk_write_count fuel cfg c s base c' s' n e : P s base ->
+  chunk_write St g nx fuel cfg c s = Ok (c', s', n, e) ->
+  length (c_recs c') = (length (c_recs c) + n)%nat /\ P s' (base + n).
+Proof.
+  intros HP H. unfold chunk_write in H. destruct (max_chunk cfg <=? c_size c).
+  - injection H as <- <- <- <-. rewrite !Nat.add_0_r. auto.
+  - destruct (cw_loop_count _ _ _ _ _ _ _ _ _ _ HP H) as (k & -> & Hl & HP'). auto.
+Qed.
+
+Lemma pick_chunk_ne j ex : pick_chunk j ex <> [].
+Proof. destruct (pick_chunk_cases j ex) as [(-> & H & _)| ->]; [exact H|destruct j; discriminate]. Qed.
+
+Lemma jw_loop_count : forall rounds fuel cfg j s ex base j' s' n pos e, P s base ->
+  jw_loop St g nx rounds fuel cfg j s ex = Ok (j', s', n, pos, e) ->
+  length (flat j') = (length (flat j) + n)%nat /\ P s' (base + n) /\ (e <> WNil -> n = O).
+Proof.
+  induction rounds as [|rd IH]; intros fuel cfg j s ex base j' s' n pos e HP H; cbn [jw_loop] in H; [discriminate|].
+  set (j1 := pick_chunk j ex) in *. set (c := last j1 (new_chunk j)) in *.
+  assert (Hne : j1 <> []) by apply pick_chunk_ne.
+  assert (Hj1 : length (flat j1) = length (flat j)) by (unfold j1; rewrite flat_pick; reflexivity).
+  destruct (chunk_write St g nx fuel cfg c s) as [ [ [ [c1 s1] n1] e1] | | | ] eqn:CW; cbn [obind] in H; try discriminate.
+  destruct (chunk_write_count _ _ _ _ _ _ _ _ _ HP CW) as [Hl HP1].
+  assert (Hset : forall c2, length (c_recs c2) = (length (c_recs c) + n1)%nat ->
+            length (flat (set_last j1 c2)) = (length (flat j) + n1)%nat).
+  { intros c2 Hc2. rewrite flat_set_last by exact Hne. rewrite <- Hj1, (flat_last j1 (new_chunk j) Hne). fold c.
+    rewrite !app_length. lia. }
+  destruct (0 <? n1)%nat eqn:Hpos.
+  - injection H as <- <- <- <- <-. split; [apply Hset; exact Hl|]. split; [exact HP1|congruence].
+  - apply Nat.ltb_ge in Hpos. assert (n1 = O) by lia. subst n1.
+    assert (Hfl : forall c2, length (c_recs c2) = length (c_recs c1) -> length (flat (set_last j1 c2)) = length (flat j)).
+    { intros c2 Hc2. rewrite (Hset c2) by lia. lia. }
+    rewrite Nat.add_0_r in HP1.
+    destruct e1.
+    + injection H as <- <- <- <- <-. rewrite !Nat.add_0_r. split; [apply Hfl; reflexivity|]. split; [exact HP1|reflexivity].
+    + destruct (c_id c1 =? ex)%N.
+      * injection H as <- <- <- <- <-. rewrite !Nat.add_0_r.
+        split; [apply Hfl; reflexivity|]. split; [exact HP1|reflexivity].
+      * destruct (IH fuel cfg _ s1 (c_id c1) base j' s' n pos e HP1 H) as (A & B & C).
+        split; [|split; assumption].
+        rewrite A. rewrite (Hfl (flush_chunk c1)) by reflexivity. reflexivity.
+    + injection H as <- <- <- <- <-. rewrite !Nat.add_0_r. split; [apply Hfl; reflexivity|]. split; [exact HP1|reflexivity].
+Qed.
+
+Lemma sw_loop_count : forall rounds fuel cfg j s we base j' s' we', P s base ->
+  sw_loop St g nx rounds fuel cfg j s we = Ok (j', s', we', false) ->
+  exists n, length (flat j') = (length (flat j) + n)%nat /\ Fin s' (base + n).
+Proof.
+  induction rounds as [|rd IH]; intros fuel cfg j s we base j' s' we' HP H; cbn [sw_loop] in H; [discriminate|].
+  destruct (journal_write St g nx fuel cfg j s) as [ [ [ [ [j1 s1] n1] pos] e] | | | ] eqn:JW; cbn [obind] in H; try discriminate.
+  destruct (jw_loop_count _ _ _ _ _ _ _ _ _ _ _ _ HP JW) as (Hl & HP1 & He).
+  destruct e.
+  - destruct (g s1) as [s2 [ [r| ] | | | ] ] eqn:G; try discriminate.
+    + destruct (Hsome s1 _ s2 r HP1 G) as [HP2 _].
+      destruct (IH fuel cfg j1 s2 _ (base + n1)%nat j' s' we' HP2 H) as (n & Hl' & HF).
+      exists (n1 + n)%nat. split; [lia|]. rewrite Nat.add_assoc. exact HF.
+    + injection H as <- <- <-. exists n1. split; [exact Hl|]. exact (proj2 (Hnone s1 _ s2 HP1 G)).
+  - injection H as _ _ _ Hb. rewrite (He ltac:(discriminate)) in Hb. discriminate.
+  - injection H as _ _ _ Hb. rewrite (He ltac:(discriminate)) in Hb. discriminate.
+Qed.
+End Counting.
+
+(* the packet iterator under the iwrapper keeps count: records stored so far = events decoded and released *)
+Section Truncated.
+Variable fparse : bytes -> outcome bytes.
+Variable mr : Z.
+Variable R : N.
+
+Definition wp_P (s : wpit) (n : nat) : Prop :=
+  wp_recs s = R /\ (N.of_nat n + (if wp_read s then 1 else 0))%N = wp_cur s /\ (wp_cur s <= wp_recs s)%N.
+Definition wp_Fin (s : wpit) (n : nat) : Prop := N.of_nat n = R.
+
+Lemma wp_get_some s n s' e : wp_P s n -> wp_get fparse s = (s', Ok (Some e)) -> wp_P s' n /\ wp_P (wp_next s') (S n).
+Proof.
+  intros (HR & Hc & Hle) H. unfold wp_get, wp_get_v in H. unfold wp_P.
+  destruct (wp_read s) eqn:Rd.
+  - injection H as <- _. rewrite Rd. cbn [wp_next wp_recs wp_cur wp_read]. repeat split; try assumption; lia.
+  - destruct (N.leb_spec (wp_recs s) (wp_cur s)); [discriminate|].
+    destruct (unmarshal_api_event (wp_buf s)) as [[ae rest]| | |]; try discriminate.
+    injection H as <- _. cbn [wp_next wp_recs wp_cur wp_read]. repeat split; try assumption; lia.
+Qed.
+
+Lemma wp_get_none s n s' : wp_P s n -> wp_get fparse s = (s', Ok None) -> wp_P s' n /\ wp_Fin s' n.
+Proof.
+  intros (HR & Hc & Hle) H. unfold wp_get, wp_get_v in H.
+  destruct (wp_read s) eqn:Rd; [discriminate|].
+  destruct (N.leb_spec (wp_recs s) (wp_cur s)).
+  - injection H as <-. split; [unfold wp_P; rewrite Rd; repeat split; assumption|]. unfold wp_Fin. lia.
+  - destruct (unmarshal_api_event (wp_buf s)) as [[ae rest]| | |]; discriminate.
+Qed.
+
+Lemma wp_get_err s n s' : wp_P s n -> wp_get fparse s = (s', Err) -> wp_P s' n.
+Proof.
+  intros HP H. unfold wp_get, wp_get_v in H.
+  destruct (wp_read s); [discriminate|]. destruct (wp_recs s <=? wp_cur s)%N; [discriminate|].
+  destruct (unmarshal_api_event (wp_buf s)) as [[ae rest]| | |]; try discriminate. injection H as <-. exact HP.
+Qed.
+
+Lemma wp_init_start body tags it : wp_init fparse body = Ok (tags, it) -> wp_cur it = 0%N /\ wp_read it = false.
+Proof.
+  unfold wp_init. destruct (unmarshal_bytes body) as [[t r1]| | |]; cbn [obind]; try discriminate.
+  destruct (unmarshal_bytes r1) as [[f r2]| | |]; cbn [obind]; try discriminate.
+  destruct (unmarshal_u32 r2) as [[ln r3]| | |]; cbn [obind]; try discriminate.
+  destruct (fparse f); cbn [obind]; try discriminate. intros H. injection H as _ <-. split; reflexivity.
+Qed.
+
+Lemma iw_wp_count rounds fuel cfg j s we base j' s' we' : wp_P s base ->
+  sw_loop wpit (iw_get wpit (wp_get fparse) mr) (iw_next wpit wp_next) rounds fuel cfg j s we = Ok (j', s', we', false) ->
+  exists n, length (flat j') = (length (flat j) + n)%nat /\ N.of_nat (base + n) = R.
+Proof.
+  apply (sw_loop_count wpit _ _ wp_P wp_Fin).
+  - intros s0 n s1 r HP H. unfold iw_get in H. destruct (wp_get fparse s0) as [s2 [ [e| ] | | | ] ] eqn:G; try discriminate.
+    destruct (too_big mr e); [discriminate|]. injection H as <- _. unfold iw_next. eapply wp_get_some; eassumption.
+  - intros s0 n s1 HP H. unfold iw_get in H. destruct (wp_get fparse s0) as [s2 [ [e| ] | | | ] ] eqn:G; try discriminate.
+    + destruct (too_big mr e); discriminate.
+    + injection H as <-. eapply wp_get_none; eassumption.
+  - intros s0 n s1 HP H. unfold iw_get in H. destruct (wp_get fparse s0) as [s2 [ [e| ] | | | ] ] eqn:G; try discriminate.
+    + destruct (too_big mr e); [|discriminate]. injection H as <-. exact (proj1 (wp_get_some _ _ _ _ HP G)).
+    + injection H as <-. eapply wp_get_err; eassumption.
+Qed.
+End Truncated.
+
+(* C01_reject_truncated: whatever the request body is, if the ingestor acknowledges it the partition holds as many
+   events as the packet declares *)
+Theorem truncated_rejected fparse norm cfg fuel body srv res tags it key :
+  ingest fparse norm fuel cfg [] body = Ok (srv, res) -> r_ack res = true ->
+  wp_init fparse body = Ok (tags, it) -> norm tags = Ok key ->
+  N.of_nat (length (content srv key)) = wp_recs it.
+Proof.
+  intros H Hack Hinit Hn. unfold ingest, ingest_v in H. rewrite Hinit in H. unfold svc_write in H. rewrite Hn in H.
+  change (wp_get_v fparse false) with (wp_get fparse) in H.
+  destruct (sw_loop _ _ _ fuel fuel cfg (srv_get [] key) it None) as [ [ [ [j' s'] we] failed] | | | ] eqn:SW; cbn [obind] in H; try discriminate.
+  injection H as <- <-. cbn [r_ack] in Hack. apply negb_true_iff in Hack. subst failed.
+  destruct (wp_init_start fparse body tags it Hinit) as [Hc Hr].
+  destruct (iw_wp_count fparse (w_limit cfg) (wp_recs it) fuel fuel cfg (srv_get [] key) it None O j' s' we) as (n & Hl & HR).
+  - unfold wp_P. rewrite Hr, Hc. repeat split; lia.
+  - exact SW.
+  - unfold content. change [(key, j')] with (srv_set [] key j'). rewrite srv_get_set_same. rewrite Hl. cbn [srv_get flat map concat length]. exact HR.
 Qed.
